@@ -24,10 +24,11 @@ struct Args {
     variants: String,
     cli: Option<String>,
     cli_every: usize,
+    micro: bool,
 }
 
 fn parse_args() -> Args {
-    let mut a = Args { input: String::new(), out: String::new(), obs: None, bases: 2, variants: "none".into(), cli: None, cli_every: 50 };
+    let mut a = Args { input: String::new(), out: String::new(), obs: None, bases: 2, variants: "none".into(), cli: None, cli_every: 50, micro: false };
     let v: Vec<String> = std::env::args().collect();
     let mut i = 1;
     while i < v.len() {
@@ -38,6 +39,7 @@ fn parse_args() -> Args {
             "--bases" => { a.bases = v[i + 1].parse().unwrap_or(2); i += 1; }
             "--variants" => { a.variants = v[i + 1].clone(); i += 1; }
             "--cli" => { a.cli = Some(v[i + 1].clone()); i += 1; }
+            "--micro" => { a.micro = true; }
             "--cli-every" => { a.cli_every = v[i + 1].parse().unwrap_or(50).max(1); i += 1; }
             _ => {}
         }
@@ -492,6 +494,28 @@ fn main() {
         if rec0.legs.iter().any(|l| l.rule() == "BedAndBreakfast") { cnt.inc("with_bnb"); }
         if case.recs.iter().any(|r| r.timing != rec0.timing) { cnt.inc("timing_ambiguous"); }
         let mut canon: Option<(String, Option<cgtv::summary::RepSum>)> = None;
+        // the same ledger in another share unit: every quantity times 10^-7, every unit price times 10^7 (fund units, satoshi-like
+        // fractions).  Money figures are unchanged and quantities scale; nothing in the rules knows a "small" quantity
+        if args.micro && case.recs.len() == 1 && !rec0.has_events() {
+            let k = Rat::new(1, 10_000_000);
+            let mut m = rec0.clone();
+            for sec in m.ledger.iter_mut() { for c in sec.iter_mut() {
+                c.0 = c.0.mul(k); c.3 = c.3.mul(k);
+                c.1 = c.1.div(k); c.4 = c.4.div(k);
+            } }
+            for g in m.legs.iter_mut() { g.4 = g.4.mul(k); }
+            for pq in m.pool.iter_mut() { pq.0 = pq.0.mul(k); }
+            let r = Render { base: bases[0], order: Order::Canonical, fills: Fills::One, lower: false, dividends: false, only: None };
+            let txs = render(&m, &r);
+            let cfg = &config;
+            let t2 = txs.clone();
+            let res: Res = guarded(move || calculate(&t2, None, None, cfg).map_err(|e| e.to_string()));
+            cnt.inc("executions");
+            cnt.inc("micro_unit_runs");
+            let mut f = judge(case_no, &m, r.base, &txs, &res, &mut cnt);
+            for x in f.iter_mut() { x.detail = format!("(quantities in units of 10^-7 shares) {}", x.detail); }
+            findings.extend(f);
+        }
         for r in variants(&args.variants, &bases, case_no) {
             let mut txs = render(rec0, &r);
             if r.lower {
